@@ -28,21 +28,21 @@ Definition cigar := list (cop * nat).
 (* The rules found defective by the correspondence check, each switchable to its repair.  All five have been repaired
    in /repo (fix: commits 8735279, 7e88262, ad24a2d, 064e8b6, 9cec2b4); `original_rules` keeps the code as it was, for
    the `_refuted` witness theorems; `current_rules` is the code as it is now (= repaired_rules).
-     r_skip_consumed   cigar_prefix_length at a reference skip (N): false = the code (reports the *requested*
-                       number of reference bases), true = repaired (reports the bases actually consumed,
+     r_skip_consumed   cigar_prefix_length at a reference skip (N): false = the code as it was (reports the *requested*
+                       number of reference bases), true = the code now (reports the bases actually consumed,
                        like at the end of the read)
      r_ins_left_flank  _detect_alleles, insertion variant (empty normalised REF) located exactly at the first
-                       base of an aligned block (read start / after N): false = the code (queues it, the empty
-                       REF allele resolves at once), true = repaired (skips it: the junction is not covered)
+                       base of an aligned block (read start / after N): false = the code as it was (queues it, the empty
+                       REF allele resolves at once), true = the code now (skips it: the junction is not covered)
      r_ins_span        _detect_alleles at an I operation queues every insertion variant located less than
                        `length` reference bases downstream (`ref_end = ref_pos + length` although I consumes no
-                       reference): false = the code, true = repaired (only variants at ref_pos itself)
-     r_distance        AlignedRead.distance: false = the code, max(other.end - self.start, other.start - self.end, 0),
+                       reference): false = the code as it was, true = the code now (only variants at ref_pos itself)
+     r_distance        AlignedRead.distance: false = the code as it was, max(other.end - self.start, other.start - self.end, 0),
                        which is the reference span for the alignment itself (a primary alignment longer than the
                        distance threshold drops out of its own group and loses all alleles) and 0 for any alignment
-                       to the left; true = repaired: the gap max(other.start - self.end, self.start - other.end, 0)
-     r_pair_keep_mate  create_read_from_group: false = the code (drops every alignment whose strand differs
-                       from the last primary one, i.e. one mate of every FR pair), true = repaired (the strand
+                       to the left; true = the code now: the gap max(other.start - self.end, self.start - other.end, 0)
+     r_pair_keep_mate  create_read_from_group: false = the code as it was (drops every alignment whose strand differs
+                       from the last primary one, i.e. one mate of every FR pair), true = the code now (the strand
                        filter applies to supplementary alignments only) *)
 Record rules := mkRules { r_skip_consumed : bool; r_ins_left_flank : bool; r_pair_keep_mate : bool;
                           r_ins_span : bool; r_distance : bool }.
